@@ -175,7 +175,7 @@ func schedWorld(s *stats, rng *rand.Rand, nRegions, calls int) error {
 	// admin schedulers that pause a store: only plain up stores, distinct (anything else is a contradictory setup)
 	var plainUp []uint64
 	for _, sd := range w.Stores {
-		if sd.State == stUp && sd.Engine == "" {
+		if w.plainUp(&sd) {
 			plainUp = append(plainUp, sd.ID)
 		}
 	}
@@ -215,6 +215,7 @@ func schedWorld(s *stats, rng *rand.Rand, nRegions, calls int) error {
 		return err
 	}
 	s.count("sched_worlds", 1)
+	countProps(s, w)
 	s.count("sched_worlds_rules_"+w.Rules, 1)
 	s.count("sched_hot_regions_fed", int64(hot))
 	if w.Evict != 0 {
